@@ -102,7 +102,8 @@ func NewCron(db *bolt.DB, partitions int, maxJitter time.Duration, ttl time.Dura
 
 func (c *Cron) Jitter() time.Duration {
 	max := float64(c.MaxJitter)
-	d := time.Duration(rand.Float64()*max - max/2)
+	// Never negative: a job does not fire before it is due.
+	d := time.Duration(rand.Float64() * max)
 	log.Printf("Cron.Jitter %v", d)
 	return d
 }
